@@ -71,6 +71,9 @@ def run(ctx):
     ctx.counted('unclosed groups in path patterns: walker vs matcher', nug_, nug_ // 2, [{'pattern': '@(a/[b'}])
     nsp = globcommon.spelling_equiv(ctx, rng, 3 if ctx.quick else 12, 30 if ctx.quick else 120)
     ctx.counted('separator runs and a dangling backslash in the pattern do not change the walk', nsp, nsp // 2, [{'pattern': 'sub/\\/**//f*\\', 'same_as': 'sub/**/f*'}])
+    from props import glue
+    glue.bytes_dirfd_hidden(ctx)
+    glue.root_through_link(ctx)
     return ctx.finish(RULE)
 
 
